@@ -271,3 +271,5 @@ def replay(ctx, payload):
     if "asm" in inp:
         check_asms(ctx, "replay", [inp["asm"]], inp.get("source", "format_agp"))
     return {"fails": bool(ctx.out.oracle_failures or ctx.out.disagreements), "oracle": ctx.out.oracle_failures}
+
+LEVEL_NOTE = LEVEL_NOTE + ' NEW: `asm_format_writes_valid_agp`, `asm_format_files_write_valid_agp` (Properties/C06Cli.lean) over the CLI model; `GapsStrict` is the one hypothesis (parse_agp accepts zero/negative gaps)'
